@@ -104,6 +104,32 @@ func histStarts(thorough bool) []histStart {
 					func() any { return fieldBuilt(3, level, bg.ver, full) }, true, false, full)
 			}
 		}
+		// struct literals around a decoded lower-level object (no constructor: the private seen-names
+		// table is nil).  Whatever such an object answers, queries must not change it (round 4,
+		// C15-A-r4: a lazily allocated table that only some queries allocate).
+		if ver == 2 {
+			add("v2 temporal struct literal around a decoded base", 2, 1, func() any {
+				b, _ := v2.NewBase().Decode("AV:N/AC:L/Au:N/C:C/I:C/A:C")
+				return &v2.Temporal{Base: b, E: v2.ExploitabilityFunctional, RL: v2.RemediationLevelWorkaround, RC: v2.ReportConfidenceUncorroborated}
+			}, false, false, nil)
+			add("v2 environmental struct literal around a decoded temporal", 2, 2, func() any {
+				t, _ := v2.NewTemporal().Decode("AV:N/AC:L/Au:N/C:C/I:C/A:C/E:F/RL:W/RC:UR")
+				return &v2.Environmental{Temporal: t, CDP: v2.CollateralDamagePotentialHigh, TD: v2.TargetDistributionMedium, CR: v2.ConfidentialityRequirementHigh, IR: v2.IntegrityRequirementLow, AR: v2.AvailabilityRequirementMedium}
+			}, false, false, nil)
+			add("v2 environmental struct literal around a struct-literal temporal", 2, 2, func() any {
+				b, _ := v2.NewBase().Decode("AV:L/AC:M/Au:S/C:P/I:P/A:N")
+				return &v2.Environmental{Temporal: &v2.Temporal{Base: b, E: v2.ExploitabilityUnproven, RL: v2.RemediationLevelOfficialFix, RC: v2.ReportConfidenceConfirmed}, CDP: v2.CollateralDamagePotentialLow, TD: v2.TargetDistributionHigh, CR: v2.ConfidentialityRequirementLow, IR: v2.IntegrityRequirementHigh, AR: v2.AvailabilityRequirementHigh}
+			}, false, false, nil)
+		} else {
+			add("v3 temporal struct literal around a decoded base", 3, 1, func() any {
+				b, _ := v3.NewBase().Decode("CVSS:3.1/AV:N/AC:L/PR:N/UI:R/S:C/C:H/I:L/A:N")
+				return &v3.Temporal{Base: b, E: v3.ExploitabilityFunctional, RL: v3.RemediationLevelWorkaround, RC: v3.ReportConfidenceReasonable}
+			}, false, false, nil)
+			add("v3 environmental struct literal around a decoded temporal", 3, 2, func() any {
+				t, _ := v3.NewTemporal().Decode("CVSS:3.0/AV:N/AC:L/PR:L/UI:N/S:U/C:H/I:L/A:N/E:P/RL:T/RC:U")
+				return &v3.Environmental{Temporal: t, CR: v3.ConfidentialityRequirementHigh, MS: v3.ModifiedScopeChanged, MAV: v3.ModifiedAttackVectorLocal}
+			}, false, false, nil)
+		}
 		vecs := seeds(ver)
 		if ver == 3 {
 			// Modified metrics that differ from their base metrics, in both directions
@@ -225,6 +251,17 @@ func histOps(thorough bool) []histOp {
 		l := l
 		q("report.New("+l.String()+")", func(s *histStart) bool { return s.ver == 3 && !s.isNil }, func(o any) string { return dump.Of(reportOf(o, l)) })
 	}
+	q("report.New(no language option)", func(s *histStart) bool { return s.ver == 3 && !s.isNil }, func(o any) string {
+		switch x := o.(type) {
+		case *v3.Base:
+			return dump.Of(report.NewBase(x))
+		case *v3.Temporal:
+			return dump.Of(report.NewTemporal(x))
+		case *v3.Environmental:
+			return dump.Of(report.NewEnvironmental(x))
+		}
+		return ""
+	})
 	q("ExportWithString", func(s *histStart) bool { return s.ver == 3 && !s.isNil }, func(o any) string {
 		rep := reportOf(o, language.Japanese).(interface {
 			ExportWithString(string) (io.Reader, error)
@@ -268,6 +305,37 @@ func histOps(thorough bool) []histOp {
 				return fmt.Sprintf("rejected %s panic=%q", lib.Class(err), pan)
 			}
 			return observables(o)
+		}})
+	}
+	// process history: reports built elsewhere with unusual option lists (a nil option panics in
+	// the pinned library; the panic is recovered and part of the result) — whatever they do must
+	// not leak into later reports (round 4, C17-A-r4: options applied to a shared default)
+	for _, ol := range []struct {
+		name string
+		opts []report.ReportOptionsFunc
+	}{
+		{"[ja]", []report.ReportOptionsFunc{report.WithOptionsLanguage(language.Japanese)}},
+		{"[nil, ja]", []report.ReportOptionsFunc{nil, report.WithOptionsLanguage(language.Japanese)}},
+		{"[ja, nil]", []report.ReportOptionsFunc{report.WithOptionsLanguage(language.Japanese), nil}},
+		{"[ja, und]", []report.ReportOptionsFunc{report.WithOptionsLanguage(language.Japanese), report.WithOptionsLanguage(language.Und)}},
+		{"[fr, ja]", []report.ReportOptionsFunc{report.WithOptionsLanguage(language.French), report.WithOptionsLanguage(language.Japanese)}},
+	} {
+		ol := ol
+		ops = append(ops, histOp{name: "report-elsewhere with the option list " + ol.name, kind: 'd', ok: always, run: func(any) string {
+			// a nil option is outside every property; what the call does (the pinned library panics)
+			// is recorded as its result, not judged
+			return func() (res string) {
+				defer func() {
+					if x := recover(); x != nil {
+						res = fmt.Sprintf("the call panicked: %v", x)
+					}
+				}()
+				em, err := v3.NewEnvironmental().Decode("CVSS:3.1/AV:N/AC:L/PR:N/UI:R/S:C/C:H/I:L/A:N/E:F/MS:U")
+				if err != nil {
+					return "rejected"
+				}
+				return dump.Of(report.NewEnvironmental(em, ol.opts...)) + dump.Of(report.NewBase(em.BaseMetrics(), ol.opts...))
+			}()
 		}})
 	}
 	// mutations of the version label and of the embedded pointers
